@@ -45,6 +45,7 @@ func runC13(c *Ctx) {
 	if ao != nil {
 		return
 	}
+	vnetExclude(p, assign, addNIC, dial, assignPort, allocLocal, insert, find, del, cclose, onClosed, netIn)
 	la := computeLocksets(p)
 
 	// R1 automatic address tested against the NIC table
@@ -92,7 +93,7 @@ func runC13(c *Ctx) {
 		o.Fail(assign.Pos(), "the allocator cannot report exhaustion")
 	}
 	// the host byte never wraps: the loop test bounds lastID below 255 before the increment
-	for _, in := range findInstrs(assign, func(in ssa.Instruction) bool { return isFieldStore(in, "vnet.Router", "lastID") }) {
+	for _, in := range findU(assign, func(in ssa.Instruction) bool { return isFieldStore(in, "vnet.Router", "lastID") }) {
 		okB := hasFact(in, func(ft fact) bool {
 			cm, ok := normCmp(ft.Cond, ft.Val)
 			if !ok || cm.Op != token.LSS || !isFieldLoad(cm.X, "vnet.Router", "lastID") {
@@ -109,7 +110,7 @@ func runC13(c *Ctx) {
 	// R2 subnet test dominates registration
 	o = c.Obl("R2", fname(addNIC), "an address is registered (and added to the interface) only on the edge where the router's subnet contains that very address; otherwise an error is returned", 1)
 	nReg := 0
-	for _, in := range findInstrs(addNIC, func(in ssa.Instruction) bool {
+	for _, in := range findU(addNIC, func(in ssa.Instruction) bool {
 		mu, ok := in.(*ssa.MapUpdate)
 		return ok && isFieldLoad(mu.Map, "vnet.Router", "nics")
 	}) {
@@ -157,7 +158,7 @@ func runC13(c *Ctx) {
 
 	// R3 bind
 	o = c.Obl("R3", fname(dial), "a socket is created and inserted only after the address-ownership test and either a successful ephemeral search in 5000-5999 or the not-found edge of the conflict lookup; every caller holds the host mutex exclusively (search + insert are atomic)", 3)
-	for _, in := range findInstrs(dial, func(in ssa.Instruction) bool {
+	for _, in := range findU(dial, func(in ssa.Instruction) bool {
 		return isPlainCall(in, "vnet.newUDPConn") || isPlainCall(in, "(*vnet.udpConnMap).insert")
 	}) {
 		o.Site(in.Pos(), "%s", callName(in.(ssa.CallInstruction)))
@@ -210,7 +211,7 @@ func runC13(c *Ctx) {
 		}
 	}
 	// ephemeral range constants and the value inserted
-	for _, in := range findInstrs(dial, func(in ssa.Instruction) bool { cl, ok := in.(*ssa.Call); return ok && cl.Call.StaticCallee() == assignPort }) {
+	for _, in := range findU(dial, func(in ssa.Instruction) bool { cl, ok := in.(*ssa.Call); return ok && cl.Call.StaticCallee() == assignPort }) {
 		cl := in.(*ssa.Call)
 		lo, ok1 := constInt(cl.Call.Args[2])
 		hi, ok2 := constInt(cl.Call.Args[3])
@@ -305,7 +306,7 @@ func runC13(c *Ctx) {
 		return ok && cl.Common().IsInvoke() && cl.Common().Method.Name() == "onClosed"
 	}
 	nRel := 0
-	for _, in := range findInstrs(cclose, isRel) {
+	for _, in := range findU(cclose, isRel) {
 		nRel++
 		o.Site(in.Pos(), "%s", in.String())
 		if _, isDefer := in.(*ssa.Defer); isDefer || !hasFact(in, func(ft fact) bool {
@@ -321,7 +322,7 @@ func runC13(c *Ctx) {
 	if nRel != 1 {
 		o.Fail(cclose.Pos(), "expected one release of the address in Close, found %d", nRel)
 	}
-	if ok, bad := mustPass(entryPos(cclose), func(in ssa.Instruction) bool { return isSuccessReturnOf(in, 0) }, isRel); !ok {
+	if ok, bad := mustPassU(entryPos(cclose), func(in ssa.Instruction) bool { return isSuccessReturnOf(in, 0) }, isRel); !ok {
 		o.Fail(bad.Pos(), "Close can succeed without releasing the address")
 	}
 	okDel := false
@@ -337,7 +338,7 @@ func runC13(c *Ctx) {
 
 	// R6 inbound datagram handed to the socket covering its destination
 	o = c.Obl("R6", fname(netIn), "an inbound datagram is handed to the socket found for its destination address", 1)
-	for _, in := range findInstrs(netIn, func(in ssa.Instruction) bool { return isPlainCall(in, "(*vnet.UDPConn).onInboundChunk") }) {
+	for _, in := range findU(netIn, func(in ssa.Instruction) bool { return isPlainCall(in, "(*vnet.UDPConn).onInboundChunk") }) {
 		cl := in.(*ssa.Call)
 		o.Site(in.Pos(), "deliver")
 		ex, ok := cl.Call.Args[0].(*ssa.Extract)
@@ -536,6 +537,7 @@ func runC01(c *Ctx) {
 	if ao != nil {
 		return
 	}
+	vnetExclude(p, writeTo, netWrite, rpush, pc, rIn, netIn, cIn, readFrom, start, cclose, natOut, natIn, find)
 	la := computeLocksets(p)
 	path := []*ssa.Function{writeTo, netWrite, rpush, pc, rIn, netIn, cIn, natOut, natIn}
 
@@ -636,7 +638,7 @@ func runC01(c *Ctx) {
 			end = func(in ssa.Instruction) bool { return isReturn(in) || isQueueCall(in, "peek") || isQueueCall(in, "pop") }
 		}
 		ev := fwdIn[f]
-		m, inf := maxEvents(st, end, func(in ssa.Instruction) int { return b2i(ev(in)) })
+		m, inf := maxEventsU(st, end, func(in ssa.Instruction) int { return b2i(ev(in)) })
 		o.Site(f.Pos(), "%s: max forwards per datagram = %d", fname(f), m)
 		if m > 1 || inf {
 			o.Fail(f.Pos(), "%s can forward the same datagram more than once (duplicate delivery)", fname(f))
@@ -743,7 +745,7 @@ func runC01(c *Ctx) {
 	// R5 demultiplexing: lookup by destination (C13.R6 shape) and bucket by port
 	o = c.Obl("R5", fname(netIn), "the host hands an inbound datagram to the socket looked up by the datagram's destination address; the loopback path does the same", 2)
 	for _, f := range []*ssa.Function{netIn, netWrite} {
-		for _, in := range findInstrs(f, func(in ssa.Instruction) bool { return isPlainCall(in, "(*vnet.UDPConn).onInboundChunk") }) {
+		for _, in := range findU(f, func(in ssa.Instruction) bool { return isPlainCall(in, "(*vnet.UDPConn).onInboundChunk") }) {
 			cl := in.(*ssa.Call)
 			o.Site(in.Pos(), "deliver in %s", fname(f))
 			ex, _ := cl.Call.Args[0].(*ssa.Extract)
@@ -776,7 +778,7 @@ func runC01(c *Ctx) {
 			tout = cl
 		}
 	})
-	for _, in := range findInstrs(pc, func(in ssa.Instruction) bool { return isCall(in, "(*vnet.Router).push") }) {
+	for _, in := range findU(pc, func(in ssa.Instruction) bool { return isCall(in, "(*vnet.Router).push") }) {
 		cl := in.(ssa.CallInstruction)
 		o.Site(in.Pos(), "push to parent")
 		if _, isGo := in.(*ssa.Go); isGo {
@@ -811,10 +813,10 @@ func runC01(c *Ctx) {
 		}
 	}
 	isTok := func(in ssa.Instruction) bool { return isNonBlockingSendOn(in, "field vnet.Router.pushCh") }
-	for _, in := range findInstrs(rpush, isTok) {
+	for _, in := range findU(rpush, isTok) {
 		o.Site(in.Pos(), "token send")
 	}
-	for _, qp := range findInstrs(rpush, func(in ssa.Instruction) bool { return isQueueCall(in, "push") }) {
+	for _, qp := range findU(rpush, func(in ssa.Instruction) bool { return isQueueCall(in, "push") }) {
 		// from the true edge of the push result, every path to return posts a token
 		var okBlk *ssa.BasicBlock
 		for _, rf := range *qp.(*ssa.Call).Referrers() {
@@ -826,11 +828,11 @@ func runC01(c *Ctx) {
 			o.Fail(qp.Pos(), "the result of the enqueue is not examined")
 			continue
 		}
-		if ok, bad := mustPass(blockStart(okBlk), isReturn, isTok); !ok {
+		if ok, bad := mustPassU(blockStart(okBlk), isReturn, isTok); !ok {
 			o.Fail(bad.Pos(), "a datagram can be enqueued without waking the router loop")
 		}
 	}
-	for _, cm := range commsOf(rpush) {
+	for _, cm := range commsOfU(rpush) {
 		if cm.Dir == types.SendOnly && (cm.Sel == nil || cm.Sel.Blocking) {
 			o.Fail(cm.Instr.Pos(), "push blocks on a channel while holding the router mutex")
 		}
@@ -838,7 +840,7 @@ func runC01(c *Ctx) {
 
 	// R8 open socket only
 	o = c.Obl("R8", fname(cIn), "a datagram is queued to a socket only under its mutex on the !closed edge without blocking; the receive queue is closed once, under the mutex, together with the closed flag", 2)
-	for _, in := range findInstrs(cIn, fwdIn[cIn]) {
+	for _, in := range findU(cIn, fwdIn[cIn]) {
 		o.Site(in.Pos(), "send on readCh held=%s", la.heldAt(in))
 		if !la.holdsOwner(in, "vnet.UDPConn", true) {
 			o.Fail(in.Pos(), "send on the receive queue outside the socket mutex (races with close: send on closed channel)")
@@ -865,7 +867,7 @@ func runC01(c *Ctx) {
 		if pkgOf(f) != "vnet" {
 			continue
 		}
-		for _, in := range findInstrs(f, func(in ssa.Instruction) bool {
+		for _, in := range findU(f, func(in ssa.Instruction) bool {
 			return isCall(in, "builtin.close") && chanRole(in.(ssa.CallInstruction).Common().Args[0]) == "field vnet.UDPConn.readCh"
 		}) {
 			nClose++
@@ -925,7 +927,7 @@ func runC01(c *Ctx) {
 
 	// R11 source/destination of the chunk built by WriteTo
 	o = c.Obl("R11", fname(writeTo), "the chunk is created with the socket's source (determined source IP, local port) and the destination given by the caller, and handed to the host exactly once", 1)
-	for _, in := range findInstrs(writeTo, func(in ssa.Instruction) bool { return isPlainCall(in, "vnet.newChunkUDP") }) {
+	for _, in := range findU(writeTo, func(in ssa.Instruction) bool { return isPlainCall(in, "vnet.newChunkUDP") }) {
 		cl := in.(*ssa.Call)
 		o.Site(in.Pos(), "newChunkUDP")
 		dst := cl.Call.Args[1]
@@ -962,7 +964,7 @@ func runC01(c *Ctx) {
 			o.Fail(in.Pos(), "the chunk's source is not (determined source IP, the socket's local port)")
 		}
 	}
-	if m, inf := maxEvents(entryPos(writeTo), isReturn, func(in ssa.Instruction) int { return b2i(isInvoke(in, "write")) }); m != 1 || inf {
+	if m, inf := maxEventsU(entryPos(writeTo), isReturn, func(in ssa.Instruction) int { return b2i(isInvoke(in, "write")) }); m != 1 || inf {
 		o.Fail(writeTo.Pos(), "WriteTo hands the chunk to the host %d times", m)
 	}
 	_ = strings.Join
@@ -973,4 +975,21 @@ func runC01(c *Ctx) {
 	c.RulePrefix = "NATfilter."
 	runC03(c)
 	c.RulePrefix = ""
+}
+
+// vnetExclude: the anchored functions of the virtual network (and the helpers that other
+// rule sets check by role) are units of their own; any other private helper is treated as
+// part of its caller.
+func vnetExclude(p *Prog, anchors ...*ssa.Function) {
+	ex := append([]*ssa.Function{}, anchors...)
+	for _, n := range [][2]string{{"chunkQueue", "push"}, {"chunkQueue", "pop"}, {"chunkQueue", "peek"}, {"Net", "hasIPAddr"}, {"Net", "getAllIPAddrs"},
+		{"networkAddressTranslator", "findOutboundMapping"}, {"networkAddressTranslator", "findInboundMapping"}, {"networkAddressTranslator", "removeMapping"},
+		{"networkAddressTranslator", "allocateMappedAddr"}, {"networkAddressTranslator", "getPairedMappedIP"}, {"networkAddressTranslator", "getPairedLocalIP"},
+		{"Router", "push"}, {"Router", "processChunks"}, {"Router", "onInboundChunk"}, {"Net", "onInboundChunk"}, {"UDPConn", "onInboundChunk"},
+		{"Router", "assignIPAddress"}, {"Router", "addNIC"}, {"Router", "setRouter"}, {"Net", "_dialUDP"}, {"Net", "assignPort"}, {"Net", "allocateLocalAddr"},
+		{"Net", "determineSourceIP"}, {"Net", "write"}, {"Net", "onClosed"}, {"udpConnMap", "insert"}, {"udpConnMap", "find"}, {"udpConnMap", "delete"}, {"chunkUDP", "Clone"}} {
+		ex = append(ex, p.Func("vnet", n[0], n[1]))
+	}
+	ex = append(ex, p.Func("vnet", "", "newChunkUDP"), p.Func("vnet", "", "newUDPConn"), p.Func("vnet", "", "newNAT"))
+	setUnitExclude(ex...)
 }
